@@ -35,7 +35,8 @@ def prepare(check, tier, flavours=("dev",), profiles=None, n_per_profile=None):
     global _RC
     p = tier_params(tier)
     n = n_per_profile or p["n_per_profile"]
-    descs = corpus.descriptions(check.seed, n, profiles)
+    from .. import gen
+    descs = [d for d in corpus.descriptions(check.seed, n, profiles) if "rust" in gen.supported_by(d["features"])]
     key = "s%d-%s-%s" % (check.seed, tier, common.h(*(profiles or ["all"]), n))
     rc = RustCorpus(key, descs)
     rc.generate()
@@ -85,12 +86,16 @@ def describe_field(m, where):
         d0 = m.dm.get(where)
         return (d0["kind"].split("_")[0] + "-body") if d0 else "?"
     did, fid = where.split(".", 1)
+    reason = fid.split(" !", 1)[1] if " !" in fid else None
     fid = fid.split(" ")[0].split("[")[0]
     d = m.dm.get(did)
     if d is None or "fields" not in d:
         return "?"
     for idx, fl in enumerate(d["fields"]):
         if A.field_id(fl) == fid or fl["kind"] == fid:
+            if reason:
+                # the model names the root cause itself: key on it, not on the shape it occurred in
+                return "%s:%s" % (reason, "payload" if fl["kind"] in ("payload_field", "body_field") else fl["kind"].split("_")[0])
             return describe(m, d, idx, fl)
     return "bitfield-chunk"
 
@@ -121,6 +126,8 @@ def describe(m, d, idx, fl):
         else:
             shape = tgt["kind"].split("_")[0] + ":" + wclass(tgt["width"])
         s = "array:%s:%s" % (el, shape)
+        if fl.get("size_modifier"):
+            s += ":modifier"
         if m.elementsize_of(d, fl["id"]) is not None:
             s += ":elementsize"
         if m.padding_after(d, idx) is not None:
@@ -134,6 +141,32 @@ def describe(m, d, idx, fl):
         tk = m.kind(fl["type_id"])
         return "typedef:" + tk.split("_")[0]
     return k.replace("_field", "")
+
+
+def struct_tree_field(m, tid, derived_only=True):
+    """does the type (own fields, ancestors, nested structs) hold a typedef / array field whose struct type
+    is part of an inheritance tree (derived; or, with derived_only=False, also a parent)? The Python and
+    Java generators have one recorded defect each on exactly this code path."""
+    seen = set()
+
+    def scan(x, depth=0):
+        if x["id"] in seen or depth > 5:
+            return False
+        seen.add(x["id"])
+        for y in m.chain(x):
+            for fl in y.get("fields", ()):
+                t = fl.get("type_id") if fl["kind"] in ("typedef_field", "array_field") else None
+                if t and m.kind(t) == "struct_declaration":
+                    td = m.dm[t]
+                    if td.get("parent_id") or (not derived_only and A.children_of(m.file, t)):
+                        return True
+                    if scan(td, depth + 1):
+                        return True
+        return False
+    if scan(m.dm[tid]):
+        return True
+    # a parent's parser runs its children's
+    return any(scan(c if isinstance(c, dict) else m.dm[c]) for c in m.descendants(tid))
 
 
 def type_constructs(m, tid):
